@@ -263,10 +263,14 @@ pub fn run(ctx: &Ctx) -> (Stats, Spec) {
     for t in ["a & (b | c)", "a | (b & c)", "-a & (b ^ c)", "a => (b & c & d)", "(a | b) & (c | d)", "true", "false", "a"] {
         cli_case(ctx, &mut st, t);
     }
+    let wk_iters = ctx.tier.pick(3_000u64, 60_000u64);
+    let parts = with_stderr_gagged(|| util::par_jobs(16, |job| super::weak::weak_hash_job(ctx, "C20", job, wk_iters)));
+    st.merge(crate::report::merge_all(parts));
     let spec = Spec {
         rule: "every Boolean function over <= 4 variables (two label families) x {True, False, Any}, random functions over 5-8 sparse labels biased towards forced choices; CLI: generated formulas through `rsbdd -c <filter spelling> [-f t|f] -t` (the display filter must not change the direction). distinct = (table, filter, family) resp. (text, filter); non-trivial = filter != Any and at least one choice actually dropped (result != f).".into(),
         assumptions: vec!["the library's 'omitted choice' diagnostics on stderr are ignored (fd 2 is silenced during the in-process part)".into()],
         floors: vec![
+            ("weak_hash_symbol_calls".into(), 2_000, "environment over a constant-hash symbol type never exercised".into()),
             ("filter_True".into(), 60_000, "filter True never exercised".into()),
             ("filter_False".into(), 60_000, "filter False never exercised".into()),
             ("results_with_dropped_choices".into(), 5_000, "the omit arm was hardly exercised".into()),
@@ -279,6 +283,13 @@ pub fn run(ctx: &Ctx) -> (Stats, Spec) {
 }
 
 pub fn replay(ctx: &Ctx, _monitor: &str, case: &Value, st: &mut Stats) {
+    if case.get("kind").and_then(|k| k.as_str()) == Some("weak-hash") {
+        let job = case.get("job").and_then(|j| j.as_u64()).unwrap_or(0) as usize;
+        let mut c2 = ctx.clone();
+        c2.seed = case.get("seed").and_then(|j| j.as_u64()).unwrap_or(c2.seed);
+        with_stderr_gagged(|| st.merge(super::weak::weak_hash_job(&c2, "C20", job, 20_000)));
+        return;
+    }
     if case.get("kind").and_then(|k| k.as_str()) == Some("cli") {
         cli_case(ctx, st, case.get("text").and_then(|t| t.as_str()).unwrap_or("false"));
         return;
